@@ -278,6 +278,69 @@ pub fn swap_history(out: &mut crate::Out, tag: &str, seed: u64, net: NetID, bloc
         }
         d.seal_next(Some(true));
     }
+    // requests whose output coins are spent by another transaction of the same block are not requests any more
+    for which in 0..4 {
+        let k = PoolKey::new(Denom::Mel, Denom::Sym);
+        let req = match which {
+            0 | 1 => deposit_tx(&mut d, k, 4, 4, 0, &[]),
+            2 => swap_tx(&mut d, k, true, 3, 0, TxKind::Swap, &[]),
+            _ => withdraw_tx(&mut d, k, false, 0, &[]),
+        };
+        if let Some((t, w)) = req {
+            if d.apply(&[t.clone()], 0, json!({"why": format!("request to be undermined: {}", w)})) {
+                let h = d.view().height;
+                let idx = if which == 1 { 1usize } else { 0 };
+                if idx < t.outputs.len() {
+                    let c = (CoinID::new(t.hash_nosigs(), idx as u8), CoinDataHeight { coin_data: t.outputs[idx].clone(), height: h });
+                    let mut ins = vec![c.clone()];
+                    if c.1.coin_data.denom != Denom::Mel {
+                        if let Some(f) = mel_fee_coin(&d, &[c.0]) {
+                            ins.push(f);
+                        }
+                    }
+                    if let Some(sp) = d.build(TxKind::Normal, &ins, vec![], 1, vec![], 0) {
+                        d.apply(&[sp], 0, json!({"why": format!("spend output {} of the request in the same block", idx)}));
+                    }
+                }
+            }
+        }
+        d.seal_next(Some(true));
+    }
+    if big {
+        // same-side requests that add up to more than 2^120 (each at most 2^120)
+        let a = d.wal.address(CovKind::New(0));
+        let f = d.faucet(vec![mk_coin(a, 1u128 << 120, Denom::Mel, &[]), mk_coin(a, (1u128 << 119) + 40_000_000, Denom::Mel, &[]), mk_coin(a, 1u128 << 120, Denom::Sym, &[]),
+                              mk_coin(a, 1u128 << 119, Denom::Sym, &[]), mk_coin(a, 90_000_000, Denom::Mel, &[]), mk_coin(a, 91_000_000, Denom::Mel, &[])], 0, 77);
+        d.apply(&[f], 0, json!({"why": "huge holders"}));
+        d.seal_next(Some(true));
+        for side_left in [true, false] {
+            let k = PoolKey::new(Denom::Mel, Denom::Sym);
+            let mut batch = vec![];
+            let mut used: Vec<CoinID> = vec![];
+            for _ in 0..2 {
+                // the largest coins of the side's denomination
+                let denom = if side_left { k.left() } else { k.right() };
+                let mut cands: Vec<_> = d.spendable().into_iter().filter(|(c, x)| x.coin_data.denom == denom && !used.contains(c)).collect();
+                cands.sort_by_key(|(_, x)| std::cmp::Reverse(x.coin_data.value.0));
+                if let Some(c) = cands.first().cloned() {
+                    let mut ins = vec![c.clone()];
+                    if denom != Denom::Mel {
+                        if let Some(f) = mel_fee_coin(&d, &used) { ins.push(f); }
+                    }
+                    let amount = c.1.coin_data.value.0.min(1u128 << 120) - if denom == Denom::Mel { 30_000_000 } else { 0 };
+                    let to = d.wal.address(CovKind::New(1));
+                    if let Some(t) = d.build(TxKind::Swap, &ins, vec![mk_coin(to, amount, denom, &[])], 1, k.to_bytes().to_vec(), 0) {
+                        used.extend(t.inputs.iter().copied());
+                        batch.push(t);
+                    }
+                }
+            }
+            if batch.len() == 2 {
+                d.apply(&batch, 0, json!({"why": "two same-side swaps adding up to more than 2^120"}));
+            }
+            d.seal_next(None);
+        }
+    }
     for b in 0..blocks {
         let nbatches = d.r.gen_range(1..=2);
         for _ in 0..nbatches {
